@@ -11,6 +11,7 @@ from engine import pat
 from engine.util import own_nodes, calls_with_nodes, where
 
 RULES = {
+    "R-09.9": "the tokenizer treats a parenthesised multi-line record like its one-line spelling: whenever Tokenizer.get consumes a delimiter and starts the token scan afresh (`continue` after `(`, `)`, a closing quote, a comment that ends inside parentheses) it first skips the whitespace that follows - only the opening quote, whose content is significant, does not",
     "R-09.8": "records of one owner and type merge while the file is read only if the lookup addresses the stored rdataset by its full (rdclass, rdtype, covers) key: calls that pass <x>.rdtype (or their own rdtype) also pass the matching covers (same rule as C10 R-10.9, run here directly because C10 adopts a C09 rule)",
     "R-09.7": "names inside records of a zone file are made relative to the ZONE origin even below a `$ORIGIN` line: every name-reading call of a text reader passes origin, relativize and relativize_to on (C05 R-05.6 adopted)",
     "R-09.6": "$INCLUDE saves the including file's reader state before any of it is changed and restores the same fields in the same order at the end of the included file (tokenizer, current origin, last owner, file, TTL state)",
@@ -208,6 +209,25 @@ def run(model, rep, tier):
                    "origin / owner / TTL (names silently land elsewhere)") if early else "the save is not a statement of the $INCLUDE arm", stmt="include-save-first")
     from rules.common import key_triple_forwarded
     key_triple_forwarded(model, rep, "R-09.8", {"dns.node", "dns.zone", "dns.transaction", "dns.btreezone", "dns.versioned", "dns.zonefile"}, 15)
+    # ---------------------------------------------------------------- R-09.9
+    tg = model.func("dns.tokenizer.Tokenizer.get")
+    n_cont = 0
+    for blk in pat._bodies(tg.node):
+        conts = [i for i, st in enumerate(blk) if isinstance(st, ast.Continue)]
+        if not conts:
+            continue
+        before = blk[:conts[0]]
+        opens_quote = any(isinstance(x, ast.Assign) and src(x.targets[0]) == "self.quoting" and isinstance(x.value, ast.Constant) and x.value.value is True for st in before for x in ast.walk(st))
+        if opens_quote:
+            rep.ok("R-09.9", tg.qualname, where(tg, blk[conts[0]]), "opening quote: the following characters are content", stmt="restart opening-quote", nontrivial=False)
+            continue
+        n_cont += 1
+        skips = any(isinstance(st, ast.Expr) and isinstance(st.value, ast.Call) and src(st.value.func) == "self.skip_whitespace" for st in before)
+        what = " ".join(src(before[-1]).split())[:40] if before else "the delimiter"
+        rep.check(skips, "R-09.9", tg.qualname, where(tg, blk[conts[0]]), "whitespace skipped before the scan restarts",
+                  f"the scan restarts (`continue` after `{what}`) without self.skip_whitespace(): inside parentheses the indentation of the next line (or a blank line) after a comment / delimiter "
+                  "becomes a token of its own, so the multi-line spelling of a record is a syntax error while its one-line spelling loads", stmt=f"restart {n_cont}")
+    rep.floor("R-09.9", n_cont, 4)
     rep.meta["explanation"] = (
         "Three narrow structural clauses: the generic-syntax path encodes with the style's origin and the writer functions cannot raise; a taint-style gate analysis of the owner name in "
         "_rr_line/_generate_line (reachability with the in-zone edge removed, caller-supplied force_name exempt); and who-may-call / must-pass-through for the CNAME-exclusivity hook. "
@@ -215,6 +235,8 @@ def run(model, rep, tier):
 
 
 WITNESSES = [
+    {"id": "c09-comment-in-parens-keeps-indentation", "rule": "R-09.9", "file": "dns/tokenizer.py", "expect": "fires",
+     "old": "                        elif self.multiline:\n                            self.skip_whitespace()\n                            token = \"\"\n                            continue", "new": "                        elif self.multiline:\n                            token = \"\"\n                            continue"},
     {"id": "c09-include-origin-set-before-save", "rule": "R-09.6", "file": "dns/zonefile.py", "expect": "fires",
      "edits": [{"file": "dns/zonefile.py", "old": "                            new_origin = self.current_origin\n                        self.saved_state.append(", "new": "                            new_origin = self.current_origin\n                        self.current_origin = new_origin\n                        self.saved_state.append("}]},
     {"id": "c09-include-restore-order", "rule": "R-09.6", "file": "dns/zonefile.py", "expect": "fires",
